@@ -16,7 +16,7 @@ FLOORS = {"capacity_crossed": 0.1, "pool_level_kill": 0.1, "two_victims_one_tick
 
 
 def plan(tier):
-    n = 4000 if tier == "quick" else 120000
+    n = 4000 if tier == "quick" else 50000
     return [{"kind": "hypothesis", "examples": n}]
 
 
